@@ -17,6 +17,9 @@ def run(tier, seed, jobs):
                             "opts": {"pairs": True, "fine": True, "salts": [1, -1]}})
             configs.append({"mod": MOD, "cls": "LockModel", "params": {"n": 3, "fast": fast},
                             "opts": {"pairs": True, "fine": True, "triples": True}})
+    configs.append({"mod": MOD, "cls": "LockModel",
+                    "params": {"n": 2 if tier == "quick" else 3, "fast": False, "adapter": True},
+                    "opts": {"pairs": True, "fine": True}})
     cov, viol = run_models(configs, jobs)
     cov["rule"] = (
         "states = canonical quiescent states (deep fingerprint of the Lock object + actor "
